@@ -1,6 +1,7 @@
 package ingest
 
 import (
+	"bytes"
 	"fmt"
 	"io"
 
@@ -82,16 +83,24 @@ func ExportChangesAsYAML(m MutableWorld, w io.Writer) error {
 }
 
 func IngestChangesFromYAML(r io.Reader) Change {
-	return &ingestedYAML{r: r}
+	// A change can be applied more than once (a merged change first applies
+	// its parts to a scratch world), so keep the contents rather than the
+	// reader, which can only be consumed once.
+	data, err := io.ReadAll(r)
+	return &ingestedYAML{data: data, err: err}
 }
 
 type ingestedYAML struct {
-	r io.Reader
+	data []byte
+	err  error
 }
 
 func (i ingestedYAML) Apply(m MutableWorld) (b6.Collection[b6.FeatureID, b6.FeatureID], error) {
 	applied := b6.ArrayCollection[b6.FeatureID, b6.FeatureID]{}
-	decoder := yaml.NewDecoder(i.r)
+	if i.err != nil {
+		return applied.Collection(), i.err
+	}
+	decoder := yaml.NewDecoder(bytes.NewReader(i.data))
 	for {
 		var y exportedYAML
 		if err := decoder.Decode(&y); err != nil {
